@@ -128,6 +128,7 @@ def parseCmd {S} (cd : Codec S) (toks : List String) : Option (Cmd S) :=
   | ["conv", w, a, f, sr, sc'] => do pure (.conv w a f (← sr.toNat?) (← sc'.toNat?))
   | ["cop", k, w, args] => do pure (.cop (← k.toNat?) w (← parseNames args))
   | ["backward", v, s] => some (.backward v (if s == "-" then none else some s))
+  | ["backwardc", v, s] => some (.backwardc v s)
   | ["grad", v] => some (.grad v)
   | ["takegrad", w, v] => some (.takegrad w v)
   | ["cleargrad", v] => some (.cleargrad v)
